@@ -97,7 +97,14 @@ pub mod verif {
         message::KademliaMessage,
         query::{QueryAction, QueryEngine, VerifQueryDump},
     };
+    pub use super::{
+        query::VerifQueryState,
+        verif_glue::{VerifKadDump, VerifKademlia, VerifProbe, VerifProbeEntry},
+    };
 }
+
+#[cfg(feature = "verif")]
+mod verif_glue;
 
 mod schema {
     pub(super) mod kademlia {
@@ -200,6 +207,10 @@ pub(crate) struct Kademlia {
 
     /// Query executor.
     executor: QueryExecutor,
+
+    /// Verification hook: where the event loop reports its actions and quiescent states.
+    #[cfg(feature = "verif")]
+    verif_probe: Option<verif_glue::VerifProbe>,
 }
 
 impl Kademlia {
@@ -235,6 +246,8 @@ impl Kademlia {
             record_ttl: config.record_ttl,
             replication_factor: config.replication_factor,
             engine: QueryEngine::new(local_peer_id, config.replication_factor, PARALLELISM_FACTOR),
+            #[cfg(feature = "verif")]
+            verif_probe: None,
         }
     }
 
@@ -1043,10 +1056,16 @@ impl Kademlia {
         loop {
             // poll `QueryEngine` for next actions.
             while let Some(action) = self.engine.next_action() {
+                #[cfg(feature = "verif")]
+                self.verif_note_action(&action);
+
                 if let Err((query, peer)) = self.on_query_action(action).await {
                     self.disconnect_peer(peer, Some(query)).await;
                 }
             }
+
+            #[cfg(feature = "verif")]
+            self.verif_at_select();
 
             tokio::select! {
                 event = self.service.next() => match event {
